@@ -26,6 +26,32 @@ except Exception as e:
 PY
   [ $? -ne 0 ] && C2=2
 fi
+# informational source audit (the property lists it under observe_at); never produces a VIOLATION:
+# a benign atomic statistics counter would not break the property.
+python3 - "$EVD/C17.json" "${VERIF_REPO:-/repo}" <<'PY'
+import json, sys, os, re
+try:
+    ev = json.load(open(sys.argv[1])); repo = sys.argv[2]
+    toks = ["UnsafeCell", "RefCell", "Cell<", "Atomic", "Mutex", "RwLock", "static mut", "thread_local", "OnceCell", "OnceLock", "lazy_static", "Condvar"]
+    hits = {}
+    for root, _, files in os.walk(os.path.join(repo, "src")):
+        for f in files:
+            if not f.endswith(".rs") or f in ("verif.rs", "tests.rs"):
+                continue
+            p = os.path.join(root, f)
+            for n, line in enumerate(open(p, errors="replace"), 1):
+                code = line.split("//")[0]
+                for t in toks:
+                    if t in code:
+                        hits.setdefault(t, []).append("%s:%d" % (os.path.relpath(p, repo), n))
+    ev["coverage"]["source_audit_informational"] = {"tokens_searched": toks, "hits_outside_verif_hooks": {k: v[:8] for k, v in hits.items()},
+        "note": "interior-mutability tokens in library source (comments stripped, src/verif.rs and tests excluded); informational only"}
+    json.dump(ev, open(sys.argv[1], "w"), indent=1)
+    if hits:
+        print("NOTE: interior-mutability tokens in library source (informational): " + ", ".join("%s x%d" % (k, len(v)) for k, v in sorted(hits.items())))
+except Exception as e:
+    print("NOTE: source audit skipped:", e)
+PY
 if [ $C1 -eq 1 ] || [ $C2 -eq 1 ]; then exit 1; fi
 if [ $C1 -ne 0 ] || [ $C2 -ne 0 ]; then exit 2; fi
 exit 0
